@@ -185,7 +185,12 @@ pub fn run_neigh(case: &serde_json::Value, out: &mut String) {
                     return;
                 }
                 // dump an evenly spread sample of the candidates plus the picked one
-                let k = (pick.as_u64().unwrap() as usize) % c.len();
+                // a pick is an index (mod the number of candidates) or a text the candidate's description must contain
+                let k = match pick.as_str() {
+                    Some(pat) => c.iter().position(|x| x.get_print_text().replace(' ', "_").contains(pat)).unwrap_or(0),
+                    None => (pick.as_u64().unwrap() as usize) % c.len(),
+                };
+                writeln!(out, "#pick {} {} {}", d, k, c[k].get_print_text().replace(' ', "_")).unwrap();
                 let stride = std::cmp::max(1, c.len() / maxdump);
                 for (i, x) in c.iter().enumerate() {
                     if i % stride == 0 || i == k {
